@@ -278,6 +278,32 @@ def run(ctx):
             r2.check(v[0], inst, v[1], v[2], v[3])
     r2.expect_min(4)
 
+    r4 = rep.rule('C14.4-forwarded-bounces-keep-their-sender', 'R-GUARD', 'qmail-local: the -owner rewriting of the forwarding sender never applies to the null sender or to #@[], so a forwarded double bounce that fails is still recognised and discarded')
+    from qv.lib import string_guard_allows
+    pl = db.program('qmail-local')
+    ml = pl.fn('main', 'qmail-local.c')
+    ns = [c for c in ml.calls('env_put2') if c.args[0].string == 'NEWSENDER']
+    if not ns:
+        raise AnalysisBroken('qmail-local main: NEWSENDER not found')
+    obj = (ns[0].args[1].path() or '')
+    if not obj.endswith('.s'):
+        raise AnalysisBroken('qmail-local main: NEWSENDER is not taken from a stralloc')
+    obj = obj[:-2]
+    from qv.lib import deep_calls, guards_through
+    mods = [(f_, c) for f_, c in deep_calls(pl, ml, ('stralloc_copys', 'stralloc_cats', 'stralloc_copy', 'stralloc_cat', 'stralloc_catb', 'stralloc_copyb'), depth=1)
+            if c.args[0].strip().k == 'un' and c.args[0].strip().args[0].path() == obj]
+    init = [(f_, c) for f_, c in mods if c.args[1].path() == 'G:sender']
+    nrew = 0
+    for f_, c in mods:
+        if (f_, c) in init:
+            continue
+        al = string_guard_allows(guards_through(pl, ml, f_, c), lambda v: v.path() == 'G:sender', ['', '#@[]', 'a@b', '#', '#@[]x', 'x-@[]'])
+        nrew += 1
+        r4.check('' not in al and '#@[]' not in al and 'a@b' in al, 'owner-rewrite-step-%d-excludes-null-and-double-bounce-senders' % nrew, c.where,
+                 'this step of the -owner sender rewriting runs for the envelope senders %s: a double bounce (#@[]) forwarded through an alias with an -owner file leaves as alias-owner@host, and when it fails it is bounced again instead of being discarded (bounce loop)' % al)
+    r4.check(len(init) == 1 and nrew >= 1, 'forward-sender-starts-as-the-envelope-sender', ml.unit + ':main', '%d initialisation(s) from sender, %d rewriting steps' % (len(init), nrew))
+    r4.expect_min(2)
+
     r3 = rep.rule('C14.3-one-paragraph-per-recipient', 'R-TABLE', 'addbounce: for every report over {newline, other}^3 and a recipient containing a newline the text is one paragraph: no newline in the recipient line, a blank line at the end and no text after the first blank line')
     fa = prog.fn('addbounce', 'qmail-send.c')
     n = 0
